@@ -2,3 +2,4 @@ import DdsModel.Mach
 import DdsModel.Layout
 import DdsModel.Proofs.Layout
 import DdsModel.Theorems.C02
+import DdsModel.Theorems.C12
